@@ -1495,8 +1495,8 @@ chkpnt1(uid_t u)
 	if (UNLIKELY(!inittedp)) {
 		echs_icalify_init(fd, (echs_instruc_t){INSVERB_UNK});
 	}
-	echs_icalify_fini(fd);
-	if (close(fd) < 0 || renameat(qdirfd, fn, qdirfd, fn + 1) < 0) {
+	if ((echs_icalify_fini(fd) < 0) | (close(fd) < 0) ||
+	    renameat(qdirfd, fn, qdirfd, fn + 1) < 0) {
 		int x = errno;
 		(void)unlinkat(qdirfd, fn, 0);
 		errno = x;
@@ -1603,13 +1603,15 @@ chkpnta(void)
 			}
 			break;
 		}
-		echs_icalify_fini(fd);
+		const int wrc = echs_icalify_fini(fd);
+
 		if (snprintf(fn, sizeof(fn), ".echsq_%u.ics", u) < 0) {
 			/* oh fuck, there's really nothing we can do */
 			rc = -1;
 			continue;
 		}
-		if (close(fd) < 0 || renameat(qdirfd, fn, qdirfd, fn + 1) < 0) {
+		if ((wrc < 0) | (close(fd) < 0) ||
+		    renameat(qdirfd, fn, qdirfd, fn + 1) < 0) {
 			ECHS_ERR_LOG("\
 cannot checkpoint user %u's queue", u);
 			(void)unlinkat(qdirfd, fn, 0);
